@@ -292,7 +292,7 @@ func (x *Exec) merge(states []*State) *State {
 		for _, s := range live {
 			if v, ok := s.ghost[k]; ok {
 				x.u.fact("(=> " + s.pc + " (= " + n + " " + v.T + "))")
-			} else if strings.HasPrefix(k, "defer:") {
+			} else if strings.HasPrefix(k, "defer:") || strings.HasPrefix(k, "mrel:") {
 				x.u.fact("(=> " + s.pc + " (not " + n + "))") // defer statement not executed on this path
 			}
 		}
